@@ -1115,6 +1115,8 @@ fn kb_body(ctx: &Ctx, src: &mut Src, mk: &dyn Fn(Vec<u32>) -> Case, part: &'stat
   let latest = [None, Some(IAT0), Some(IAT0 - 1), Some(IAT0 + 1)][src.other("latest_issuance_date", 4)];
   let clock = [IAT0 + 10, IAT0, IAT0 - 1][src.other("clock", 3)];
   let extra_claims = src.other("additional-claims", 2) == 1;
+  // the options are a builder: the order of the calls must not matter (the signature options first, or last)
+  let jws_last = src.other("builder order: jws_verifier_options last", 2) == 1;
   let case = mk(src.ch.seq());
   fx::set_now(clock);
 
@@ -1238,7 +1240,10 @@ fn kb_body(ctx: &Ctx, src: &mut Src, mk: &dyn Fn(Vec<u32>) -> Case, part: &'stat
   if let Some(m) = ovr_str {
     vo = vo.method_id(DIDUrl::parse(m).unwrap());
   }
-  let mut options = KeyBindingJWTValidationOptions::new().jws_verifier_options(vo);
+  let mut options = KeyBindingJWTValidationOptions::new();
+  if !jws_last {
+    options = options.jws_verifier_options(vo.clone());
+  }
   if let Some(n) = nonce_opt {
     options = options.nonce(n);
   }
@@ -1250,6 +1255,9 @@ fn kb_body(ctx: &Ctx, src: &mut Src, mk: &dyn Fn(Vec<u32>) -> Case, part: &'stat
   }
   if let Some(t) = latest {
     options = options.latest_issuance_date(fx::ts(t));
+  }
+  if jws_last {
+    options = options.jws_verifier_options(vo.clone());
   }
 
   // ---- expected false conditions
